@@ -1,9 +1,12 @@
 """Straight-line numeric Python -> Lean expression translator (subset, see DESIGN 4.1).
 
 Subset: numeric literals, names and attribute chains mapped by the caller, + - * /,
-unary -, ** 2 (as e*e), min/max of two arguments, comparisons inside conditional
-expressions.  Anything else raises Unsupported - the caller turns that into a broken
-proof obligation, never into a silent default.
+unary -, ** 2 (as e*e), min/max (n-ary, folded left), comparisons inside conditional
+expressions; `Tr.body` adds straight-line statement lists (assignment / augmented
+assignment to a plain name -> `let`, the guard `if not x: return x`, a final return).
+A caller-supplied `hook(node)` may translate project-specific calls (attribute lookups,
+calls of sibling methods).  Anything else raises Unsupported - the caller turns that into
+a broken proof obligation, never into a silent default.
 """
 import ast
 import inspect
@@ -35,10 +38,13 @@ def dotted(node):
 
 
 class Tr:
-    def __init__(self, names, calls=None):
-        """names: dotted python name -> lean term; calls: python function name -> lean function (binary)."""
-        self.names = names
+    def __init__(self, names, calls=None, hook=None):
+        """names: dotted python name -> lean term; calls: python function name -> lean function (binary);
+        hook: node -> lean term or None, asked first."""
+        self.names = dict(names)
         self.calls = calls or {}
+        self.hook = hook
+        self.divisors = []      # lean terms of non-constant divisors met (for explicit division guards)
 
     def num(self, v):
         if isinstance(v, bool) or not isinstance(v, (int, float)):
@@ -49,6 +55,10 @@ class Tr:
         return '((%d : Int) / (%d : Int))' % (n, d) if d != 1 else '(%d)' % n
 
     def e(self, n):
+        if self.hook is not None:
+            h = self.hook(n)
+            if h is not None:
+                return h
         if isinstance(n, ast.Constant):
             return self.num(n.value)
         d = dotted(n)
@@ -67,13 +77,19 @@ class Tr:
             ops = {ast.Add: '+', ast.Sub: '-', ast.Mult: '*', ast.Div: '/'}
             for k, s in ops.items():
                 if isinstance(n.op, k):
-                    return '(%s %s %s)' % (self.e(n.left), s, self.e(n.right))
+                    left, right = self.e(n.left), self.e(n.right)
+                    if k is ast.Div and not (isinstance(n.right, ast.Constant) and n.right.value != 0):
+                        self.divisors.append(right)
+                    return '(%s %s %s)' % (left, s, right)
             raise Unsupported('operator %s' % type(n.op).__name__)
         if isinstance(n, ast.Call):
             f = dotted(n.func)
-            if f in self.calls and not n.keywords:
+            if f in self.calls and not n.keywords and len(n.args) >= 2:
                 args = [self.e(a) for a in n.args]
-                return '(%s %s)' % (self.calls[f], ' '.join(args))
+                acc = args[0]
+                for a in args[1:]:
+                    acc = '(%s %s %s)' % (self.calls[f], acc, a)
+                return acc
             raise Unsupported('call %s' % f)
         if isinstance(n, ast.IfExp):
             return '(if %s then %s else %s)' % (self.c(n.test), self.e(n.body), self.e(n.orelse))
@@ -86,3 +102,37 @@ class Tr:
                 if isinstance(n.ops[0], k):
                     return '(%s %s %s)' % (self.e(n.left), s, self.e(n.comparators[0]))
         raise Unsupported('condition ' + ast.dump(n)[:80])
+
+    AUG = {ast.Add: '+', ast.Sub: '-', ast.Mult: '*', ast.Div: '/'}
+
+    def body(self, stmts, ret=None):
+        """Straight-line statement list -> Lean term.  `ret` may rewrite the returned expression node
+        (e.g. pick the divisor of the final division); a tuple of nodes becomes a Lean tuple."""
+        stmts = [s for s in stmts
+                 if not (isinstance(s, ast.Expr) and isinstance(s.value, ast.Constant) and isinstance(s.value.value, str))]
+        if not stmts:
+            raise Unsupported('statement list without return')
+        s, rest = stmts[0], stmts[1:]
+        if isinstance(s, ast.Return):
+            if rest:
+                raise Unsupported('statements after return')
+            v = ret(s.value) if ret else s.value
+            if isinstance(v, (tuple, list)):
+                return '(%s)' % ', '.join(self.e(x) for x in v)
+            return self.e(v)
+        if isinstance(s, ast.Assign) and len(s.targets) == 1 and isinstance(s.targets[0], ast.Name):
+            x = s.targets[0].id
+            val = self.e(s.value)
+        elif isinstance(s, ast.AugAssign) and isinstance(s.target, ast.Name) and type(s.op) in self.AUG:
+            x = s.target.id
+            val = '(%s %s %s)' % (self.e(s.target), self.AUG[type(s.op)], self.e(s.value))
+        elif (isinstance(s, ast.If) and not s.orelse and isinstance(s.test, ast.UnaryOp)
+              and isinstance(s.test.op, ast.Not) and isinstance(s.test.operand, ast.Name)
+              and len(s.body) == 1 and isinstance(s.body[0], ast.Return)
+              and isinstance(s.body[0].value, ast.Name) and s.body[0].value.id == s.test.operand.id):
+            x = self.e(s.test.operand)
+            return '(if %s = 0 then %s else %s)' % (x, x, self.body(rest, ret))
+        else:
+            raise Unsupported('statement ' + ast.dump(s)[:80])
+        self.names[x] = x
+        return '(let %s := %s; %s)' % (x, val, self.body(rest, ret))
